@@ -311,6 +311,32 @@ func checkConfig(res *engine.Result, c capCfg, thorough bool, only *flow, verbos
 	if sets[4] == nil {
 		return st
 	}
+	// C6: the same configuration with the CIDRs of each family listed in reverse order
+	var setsRev map[int]*ruleset
+	revInc, ch1 := reversedPerFamily(c.Include)
+	revExc, ch2 := reversedPerFamily(c.Exclude)
+	if ch1 || ch2 {
+		rc := c
+		rc.Include, rc.Exclude = revInc, revExc
+		r4, r6, err := generate(rc)
+		if err != nil {
+			violate("C6-order-dependence:rejected", fmt.Sprintf("configuration %s is accepted but the same configuration with reversed CIDR lists is rejected: %v", c.key(), err), nil)
+		} else {
+			setsRev = map[int]*ruleset{}
+			for fam, text := range map[int]string{4: r4, 6: r6} {
+				if text == "" {
+					continue
+				}
+				rs, err := parseRuleset(text, fam)
+				if err != nil {
+					panic(fmt.Sprintf("%v\nconfiguration %s\n%s", err, rc.key(), text))
+				}
+				if len(rs.lint) == 0 {
+					setsRev[fam] = rs // load-time findings of the reversed list are reported when it is enumerated itself
+				}
+			}
+		}
+	}
 	pol := newPolicy(c)
 	sym := symmetric(c)
 	fams := []int{4}
@@ -319,7 +345,7 @@ func checkConfig(res *engine.Result, c capCfg, thorough bool, only *flow, verbos
 	}
 	type outcomeKey struct{ clause, verdict string }
 	outcomes := map[outcomeKey]int64{}
-	var pairs int64
+	var pairs, orderPairs int64
 	one := func(f flow) {
 		var vs [2]verdict
 		var have [2]bool
@@ -340,6 +366,17 @@ func checkConfig(res *engine.Result, c capCfg, thorough bool, only *flow, verbos
 				st.demandUntouched = true
 			} else if exp.want != "" {
 				st.demandRedirect = true
+			}
+			if rr := setsRev[fam]; rr != nil {
+				orderPairs++
+				if v2, _ := verdictOf(rr, &f, src, dst, false); v2 != v {
+					_, t1 := verdictOf(rs, &f, src, dst, true)
+					_, t2 := verdictOf(rr, &f, src, dst, true)
+					// one root cause flips many verdict pairs: the key names only the kind of packet
+					violate(fmt.Sprintf("C6-order-dependence:%s:%s", f.Kind, pol.ownerClass(&f)),
+						fmt.Sprintf("IPv%d packet [%s src=%s dst=%s]: verdict depends on the order of the CIDR lists: configuration %s gives %s via %s ;;;; with include=%q exclude=%q it gives %s via %s",
+							fam, f, src, dst, c.key(), v.ext(), strings.Join(t1, " ;; "), revInc, revExc, v2.ext(), strings.Join(t2, " ;; ")), copyFlow(f))
+				}
 			}
 			badWant := exp.want != "" && name != exp.want
 			badForbid := exp.forbid != "" && strings.Contains(name, exp.forbid)
@@ -379,6 +416,7 @@ func checkConfig(res *engine.Result, c capCfg, thorough bool, only *flow, verbos
 			res.Outcomes[k.clause+" => "+k.verdict] += n // single-threaded worker; same effect as n calls of res.Outcome
 		}
 		res.Count("v4v6_pairs_compared", pairs)
+		res.Count("order_reversed_pairs_compared", orderPairs)
 	}()
 	if only != nil {
 		only.resolve(c)
